@@ -538,14 +538,98 @@ fn dh_part(ctx: &Ctx, thorough: bool) {
     }
 }
 
+/// The random sources the built-in resolvers hand out (DefaultResolver, RingResolver, and ring preferred over
+/// default): "generated key pairs are consistent and distinct" presupposes that the source really fills what it is
+/// given. Every buffer length 0..=80 plus 200 and 4096 through fill_bytes and try_fill_bytes with two different
+/// prefills; for lengths >= 16 the result must differ from the prefill, from a second fill, and from what a second
+/// source object delivers. Then Dh::generate with each source x each DH: consistent pairs, pairwise distinct.
+/// (An honest source fails one of these inequalities with probability <= 2^-120 per test; nothing here is sampled
+/// in the sense of choosing which behaviours to look at - the enumeration is over lengths, entry points and sources.)
+fn rng_part(ctx: &Ctx) {
+    use snow::resolvers::{CryptoResolver, DefaultResolver, FallbackResolver, RingResolver};
+    let sources: Vec<(&str, Box<dyn Fn() -> Option<Box<dyn snow::types::Random>>>)> = vec![
+        ("DefaultResolver", Box::new(|| DefaultResolver.resolve_rng())),
+        ("RingResolver", Box::new(|| RingResolver.resolve_rng())),
+        ("FallbackResolver(ring, default)", Box::new(|| FallbackResolver::new(Box::new(RingResolver), Box::new(DefaultResolver)).resolve_rng())),
+    ];
+    for (who, mk) in &sources {
+        let bad = |what: String| ctx.violation("a built-in random source does not fill the buffer it is given with fresh bytes", format!("{who}: {what}"), json!({"kind": "rng", "source": who}));
+        let (Some(mut a), Some(mut b)) = (mk(), mk()) else {
+            bad("no random source".into());
+            continue;
+        };
+        let mut lens: Vec<usize> = (0..=80).collect();
+        lens.extend([200, 4096]);
+        for len in lens {
+            for entry in 0..2 {
+                for prefill in [0u8, 0xC9] {
+                    ctx.add(&ctx.evaluations, 1);
+                    let fill = |g: &mut Box<dyn snow::types::Random>| -> Result<Vec<u8>, String> {
+                        let mut buf = vec![prefill; len];
+                        let r = catch_unwind(AssertUnwindSafe(|| if entry == 0 {
+                            g.fill_bytes(&mut buf);
+                            Ok(())
+                        } else {
+                            g.try_fill_bytes(&mut buf).map_err(|e| format!("{e}"))
+                        }));
+                        match r {
+                            Ok(Ok(())) => Ok(buf),
+                            Ok(Err(e)) => Err(format!("try_fill_bytes failed: {e}")),
+                            Err(_) => Err("panicked".into()),
+                        }
+                    };
+                    let what = format!("{} of {len} bytes over a {prefill:#04x} prefill", if entry == 0 { "fill_bytes" } else { "try_fill_bytes" });
+                    match (fill(&mut a), fill(&mut a), fill(&mut b)) {
+                        (Ok(x), Ok(y), Ok(z)) => {
+                            if len >= 16 {
+                                ctx.add(&ctx.nontrivial, 1);
+                                if x.iter().all(|v| *v == prefill) || x[len / 2..].iter().all(|v| *v == prefill) || x[..len / 2].iter().all(|v| *v == prefill) {
+                                    bad(format!("{what}: (half of) the buffer is left as it was"));
+                                } else if x == y {
+                                    bad(format!("{what}: two consecutive fills are equal"));
+                                } else if x == z {
+                                    bad(format!("{what}: two source objects deliver the same bytes"));
+                                }
+                            }
+                        },
+                        (Err(e), _, _) | (_, Err(e), _) | (_, _, Err(e)) => bad(format!("{what}: {e}")),
+                    }
+                }
+            }
+        }
+        // key pairs generated from this source
+        for (alg, choice) in [(DhAlg::X25519, DHChoice::Curve25519), (DhAlg::P256, DHChoice::P256)] {
+            let mut seen: Vec<Vec<u8>> = vec![];
+            for k in 0..8 {
+                ctx.add(&ctx.evaluations, 1);
+                let Some(mut d) = DefaultResolver.resolve_dh(&choice) else { continue };
+                let mut g = if k % 2 == 0 { mk().unwrap() } else { std::mem::replace(&mut a, mk().unwrap()) };
+                if catch_unwind(AssertUnwindSafe(|| d.generate(&mut *g))).is_err() {
+                    continue; // the P-256 invalid-scalar panic is C10's recorded finding; unreachable with an honest source
+                }
+                let (sk, pk) = (d.privkey().to_vec(), d.pubkey().to_vec());
+                if alg.pubkey(&sk) != Some(pk.clone()) {
+                    bad(format!("{} key pair generated from it is inconsistent", alg.name()));
+                }
+                if seen.contains(&pk) {
+                    bad(format!("two {} key pairs generated from it are equal", alg.name()));
+                }
+                seen.push(pk);
+                ctx.add(&ctx.nontrivial, 1);
+            }
+        }
+    }
+}
+
 pub fn run(tier: Tier) -> i32 {
     let ctx = Ctx::new("C18", tier, "model_checking");
     ctx.bind_model();
     let thorough = !ctx.quick();
-    ctx.set_rule("every case calls the public trait methods of the objects returned by DefaultResolver / RingResolver and compares with an independent implementation: hash (all lengths 0..=3 blocks+1, split inputs), HMAC (every key length 0..=block_len x data lengths 0..=3 blocks+1), HKDF (1/2/3 outputs x ikm lengths x chaining keys), AEAD (keys: zero, ones, every single-bit key; nonces: boundary + every single bit + endianness witness + 2^64-1; ad/pt length grid around block edges, 65519; round trip; every bit flip and truncation of ciphertexts <= 48 bytes, wrong nonce/ad/key rejected; rekey), DH (RFC vectors, every single-bit scalar, edge scalars x base/RFC/low-order/non-canonical/arbitrary points; P-256 invalid encodings; generated key pairs consistent, symmetric, distinct; RFC 7748 iterated test)");
+    ctx.set_rule("every case calls the public trait methods of the objects returned by DefaultResolver / RingResolver and compares with an independent implementation: hash (all lengths 0..=3 blocks+1, split inputs), HMAC (every key length 0..=block_len x data lengths 0..=3 blocks+1), HKDF (1/2/3 outputs x ikm lengths x chaining keys), AEAD (keys: zero, ones, every single-bit key; nonces: boundary + every single bit + endianness witness + 2^64-1; ad/pt length grid around block edges, 65519; round trip; every bit flip and truncation of ciphertexts <= 48 bytes, wrong nonce/ad/key rejected; rekey), DH (RFC vectors, every single-bit scalar, edge scalars x base/RFC/low-order/non-canonical/arbitrary points; P-256 invalid encodings; generated key pairs consistent, symmetric, distinct; RFC 7748 iterated test); the random sources of DefaultResolver / RingResolver / ring-over-default: every buffer length 0..=80, 200, 4096 x fill_bytes / try_fill_bytes x two prefills really filled, consecutive fills and source objects differ, key pairs generated from them consistent and pairwise distinct");
     hash_part(&ctx, true);
     aead_part(&ctx, thorough);
     dh_part(&ctx, thorough);
+    rng_part(&ctx);
     let ev = ctx.evaluations.load(std::sync::atomic::Ordering::Relaxed);
     ctx.states.store(ev, std::sync::atomic::Ordering::Relaxed);
     ctx.transitions.store(ev, std::sync::atomic::Ordering::Relaxed);
@@ -567,6 +651,7 @@ pub fn replay(_case: &serde_json::Value) -> Result<(), String> {
     hash_part(&ctx, false);
     aead_part(&ctx, false);
     dh_part(&ctx, false);
+    rng_part(&ctx);
     let v = ctx.violations.lock().unwrap();
     match v.first() {
         Some(x) => Err(format!("{}: {}", x.signature, x.detail)),
